@@ -312,7 +312,7 @@ theorem propertiesJson_eq (s : ShapeS) (g : Geom) :
     popped and handed on, the shape's sanitised properties are overridden by the caller's, what is left of `**kwargs`
     becomes further members -/
 theorem toGeoJson_eq (s : Src) (o : Opts) (gi : Kw → Except String Obj)
-    (hgi : ∀ kw, gi kw = toGeoInterface s.geom kw.k kw.bbox) :
+    (hgi : gi ⟨o.k, o.bbox, []⟩ = toGeoInterface s.geom o.k o.bbox) :
     (Src.GeoJson.toGeoJson rt ⟨s.dt, s.props, gi⟩ o.props (kwOf o)).map J.obj = GeoJson.toGeoJson rt s o := by
   simp only [Src.GeoJson.toGeoJson, hgi, propertiesJson_eq rt _ s.geom, kwOf, GeoJson.toGeoJson]
   have hs : (⟨s.geom, s.dt, s.props⟩ : Src) = s := rfl
@@ -349,5 +349,270 @@ theorem getDt_eq (rec : Obj) (ks ke : String) :
     | ok b =>
       cases a <;> cases b <;> simp
       cases TI.mk? _ _ <;> rfl
+
+/-! ## the export chain as the source dispatches it
+
+`to_geojson` calls `self.to_geo_interface`, a multi-polygon calls `poly.linear_rings` on its members: Python picks the
+method by the object's class.  `Recv` is "an object of one of the exporting classes"; its methods are the *translated*
+ones of its class. -/
+
+/-- the value of an abstract `bounds` that did not raise -/
+def bndOf (e : Except String (Rat × Rat × Rat × Rat)) : Rat × Rat × Rat × Rat :=
+  match e with
+  | .ok b => b
+  | .error _ => (0, 0, 0, 0)
+
+/-- a polygon-like object -/
+inductive PolyRecv where
+  | polygon (p : PolygonS)
+  | box (b : BoxS)
+  | curved (c : CurvedS)
+  | ring (r : RingS)
+
+/-- `x.linear_rings(**kwargs)`, dispatched on the class -/
+def PolyRecv.linearRings : PolyRecv → Kw → Except String (List (List Pos))
+  | .polygon p, kw => polygonLinearRings rt p kw
+  | .box b, kw => boxLinearRings rt b kw
+  | .curved c, kw => curvedLinearRings rt c kw
+  | .ring r, kw => ringLinearRings rt r kw
+
+/-- `x.to_geo_interface(**kwargs)`, dispatched on the class -/
+def PolyRecv.geoInterface : PolyRecv → Kw → Except String Obj
+  | .polygon p, kw => polygonToGeoInterface rt p kw
+  | .box b, kw => boxToGeoInterface rt b kw
+  | .curved c, kw => curvedToGeoInterface rt c kw
+  | .ring r, kw => ringToGeoInterface rt r kw
+
+/-- the model's export source of the object -/
+def PolyRecv.toSrc : PolyRecv → PolySrc
+  | .polygon p => polygonSrc p
+  | .box b => boxSrc b
+  | .curved c => curvedSrc c (bndOf c.bounds)
+  | .ring r => ringSrc r (bndOf r.bounds)
+
+/-- what the equalities assume of the object drawn with `k`: box corners in the constructor's range (C08), a curved
+    shape's `bounds` does not raise (C09), a ring's arcs have a vertex (C03) and its `bounds` is what the model computes -/
+def PolyRecv.OK (k : Option Nat) : PolyRecv → Prop
+  | .polygon _ => True
+  | .box b => PosOK b.nw ∧ PosOK b.se
+  | .curved c => ∃ bnd, c.bounds = .ok bnd
+  | .ring r => r.outer k ≠ [] ∧ (ringFull r = true → r.inner k ≠ []) ∧ r.bounds = (ringSrc r (bndOf r.bounds)).bounds
+
+theorem PolyRecv.linearRings_eq (x : PolyRecv) (kw : Kw) (h : x.OK kw.k) :
+    x.linearRings rt kw = .ok (x.toSrc.linearRings kw.k) := by
+  cases x with
+  | polygon p => exact polygonLinearRings_eq rt p kw
+  | box b => exact boxLinearRings_eq rt b kw h.1 h.2
+  | curved c => exact curvedLinearRings_eq rt c _ kw
+  | ring r => exact ringLinearRings_eq rt r _ kw h.1 h.2.1
+
+theorem PolyRecv.geoInterface_eq (x : PolyRecv) (kw : Kw) (h : x.OK kw.k) :
+    x.geoInterface rt kw = toGeoInterface (.poly x.toSrc) kw.k kw.bbox := by
+  cases x with
+  | polygon p => exact polygonToGeoInterface_eq rt p kw
+  | box b => exact boxToGeoInterface_eq rt b kw h.1 h.2
+  | curved c =>
+    obtain ⟨bnd, hb⟩ := h
+    have : bndOf c.bounds = bnd := by rw [hb]; rfl
+    simp only [PolyRecv.geoInterface, PolyRecv.toSrc, this]
+    exact curvedToGeoInterface_eq rt c bnd kw hb
+  | ring r => exact ringToGeoInterface_eq rt r _ kw h.1 h.2.1 h.2.2
+
+/-- an object of one of the exporting classes -/
+inductive Recv where
+  | poly (x : PolyRecv)
+  | line (l : LineS)
+  | point (p : PointS)
+  | mpoly (xs : List PolyRecv) (bounds : Except String (Rat × Rat × Rat × Rat))
+  | mline (m : MLineS)
+  | mpoint (m : MPointS)
+
+/-- the `MultiGeoPolygon` record: every member answers `linear_rings` with the translated method of its class -/
+def mpolyS (xs : List PolyRecv) (bounds : Except String (Rat × Rat × Rat × Rat)) : MPolyS :=
+  ⟨xs.map (fun x => ⟨x.linearRings rt⟩), bounds⟩
+
+/-- `self.to_geo_interface(**kwargs)`, dispatched on the class -/
+def Recv.geoInterface : Recv → Kw → Except String Obj
+  | .poly x, kw => x.geoInterface rt kw
+  | .line l, kw => lineToGeoInterface rt l kw
+  | .point p, kw => pointToGeoInterface rt p kw
+  | .mpoly xs b, kw => mpolyToGeoInterface rt (mpolyS rt xs b) kw
+  | .mline m, kw => mlineToGeoInterface rt m kw
+  | .mpoint m, kw => mpointToGeoInterface rt m kw
+
+/-- the model's geometry of the object -/
+def Recv.toGeom : Recv → Geom
+  | .poly x => .poly x.toSrc
+  | .line l => .line l.vertices
+  | .point p => .point p.coordinate
+  | .mpoly xs _ => .mpoly (xs.map PolyRecv.toSrc)
+  | .mline m => .mline (m.geoshapes.map (·.vertices))
+  | .mpoint m => .mpoint (m.geoshapes.map (·.coordinate))
+
+/-- the assumptions on the members, and `MultiShapeBase.bounds` (abstract here) is what the model computes -/
+def Recv.OK (k : Option Nat) : Recv → Prop
+  | .poly x => x.OK k
+  | .line _ => True
+  | .point _ => True
+  | .mpoly xs b => (∀ x ∈ xs, x.OK k) ∧ b = (Geom.mpoly (xs.map PolyRecv.toSrc)).bounds
+  | .mline m => m.bounds = (Geom.mline (m.geoshapes.map (·.vertices))).bounds
+  | .mpoint m => m.bounds = (Geom.mpoint (m.geoshapes.map (·.coordinate))).bounds
+
+/-- **the geometry member** the source computes for an object of any exporting class is the model's `toGeoInterface` -/
+theorem Recv.geoInterface_eq (r : Recv) (kw : Kw) (h : r.OK kw.k) :
+    r.geoInterface rt kw = toGeoInterface r.toGeom kw.k kw.bbox := by
+  cases r with
+  | poly x => exact x.geoInterface_eq rt kw h
+  | line l => exact lineToGeoInterface_eq rt l kw
+  | point p => exact pointToGeoInterface_eq rt p kw
+  | mpoly xs b =>
+    refine mpolyToGeoInterface_eq rt (mpolyS rt xs b) (xs.map PolyRecv.toSrc) kw ?_ h.2
+    have hx := h.1
+    simp only [mpolyS]
+    clear h
+    induction xs with
+    | nil => exact .nil
+    | cons x t ih =>
+      refine .cons ?_ (ih (fun y hy => hx y (by simp [hy])))
+      exact x.linearRings_eq rt ⟨kw.k, false, []⟩ (hx x (by simp))
+  | mline m => exact mlineToGeoInterface_eq rt m kw h
+  | mpoint m => exact mpointToGeoInterface_eq rt m kw h
+
+/-- the object as `to_geojson` sees it -/
+def Recv.shape (r : Recv) (dt : Option TI) (props : Obj) : ShapeS := ⟨dt, props, r.geoInterface rt⟩
+
+/-- **export** — `shape.to_geojson(properties=…, **kwargs)` as the source computes it, through the translated
+    `to_geo_interface` / `linear_rings` / `bounding_coords` / `to_float` of the object's class, is the model's `toGeoJson` -/
+theorem export_eq (r : Recv) (dt : Option TI) (props : Obj) (o : Opts) (h : r.OK o.k) :
+    (Src.GeoJson.toGeoJson rt (r.shape rt dt props) o.props (kwOf o)).map J.obj =
+      GeoJson.toGeoJson rt ⟨r.toGeom, dt, props⟩ o :=
+  toGeoJson_eq rt ⟨r.toGeom, dt, props⟩ o (r.geoInterface rt) (r.geoInterface_eq rt ⟨o.k, o.bbox, []⟩ h)
+
+/-! ## the headline theorems of `Props/C14.lean`, restated for the translated source -/
+
+/-- the source's orientation test answers the RFC's question: for a closed ring that does not cross the antimeridian,
+    `is_counter_clockwise` returns `True` exactly when the plain shoelace area is non-negative -/
+theorem src_isCCW_iff_area (v : Pos) (vs : List Pos) (hc : Closed (v :: vs))
+    (hw : NoWrap ((v :: vs).map Pos.pt)) :
+    isCounterClockwise rt (v :: vs) = .ok true ↔ 0 ≤ area2 ((v :: vs).map Pos.pt) := by
+  rw [isCounterClockwise_eq]
+  simp only [Except.ok.injEq]
+  exact isCCW_iff_area _ (closed_map Pos.pt hc) hw
+
+/-- … and across the antimeridian: the sign of the area of the ring with continuous longitudes -/
+theorem src_isCCW_iff_winding (v : Pos) (vs : List Pos) (hc : Closed (v :: vs))
+    (hl : LonOK ((v :: vs).map Pos.pt)) (ht : turn ((v :: vs).map Pos.pt) = 0) :
+    isCounterClockwise rt (v :: vs) = .ok true ↔ 0 ≤ area2 (unwrap ((v :: vs).map Pos.pt)) := by
+  rw [isCounterClockwise_eq]
+  simp only [Except.ok.injEq]
+  exact isCCW_iff_winding _ (closed_map Pos.pt hc) hl ht
+
+/-- the source's constructors build the model's `mkPolygon` -/
+theorem src_mkPolygon {raw o : List Pos} {holes hs : List (List Pos)}
+    (h1 : polygonInitDefault rt raw = .ok o)
+    (h2 : GeoJson.mapE (fun r => polygonInitDefault rt r) holes = .ok hs) :
+    mkPolygon raw holes = .ok (polygonSrc ⟨o, hs.map fun h => ⟨fun _ => h⟩⟩) := by
+  have hf : (fun r => polygonInitDefault rt r) = fun r => mkOutlineP r := by
+    funext r; exact polygonInitDefault_eq rt r
+  rw [hf] at h2
+  rw [polygonInitDefault_eq] at h1
+  simp [mkPolygon, h1, h2, polygonSrc]
+
+/-- **exterior counter-clockwise, holes clockwise (RFC 7946 §3.1.6)** — for a `GeoPolygon` that the *source's*
+    constructor builds from arbitrary vertex lists (either orientation, open or closed, with or without Z; the holes
+    through `GeoPolygon(ring)` as the importers do) whose rings do not cross the antimeridian, the rings the *source's*
+    `linear_rings` hands to the exporter are: shell with non-negative shoelace area, every hole non-positive -/
+theorem src_exterior_ccw_holes_cw (raw o : List Pos) (holes hs : List (List Pos)) (kw : Kw)
+    (h1 : polygonInitDefault rt raw = .ok o)
+    (h2 : GeoJson.mapE (fun r => polygonInitDefault rt r) holes = .ok hs)
+    (hw : NoWrap ((closeRingP raw).map Pos.pt))
+    (hwh : ∀ r ∈ holes, NoWrap ((closeRingP r).map Pos.pt)) :
+    ∃ shell rest, polygonLinearRings rt ⟨o, hs.map fun h => ⟨fun _ => h⟩⟩ kw = .ok (shell :: rest) ∧
+      0 ≤ area2 (shell.map Pos.pt) ∧ ∀ r ∈ rest, area2 (r.map Pos.pt) ≤ 0 := by
+  obtain ⟨shell, rest, hlr, ha, hb⟩ :=
+    exterior_ccw_holes_cw raw holes _ kw.k (src_mkPolygon rt h1 h2) hw hwh
+  exact ⟨shell, rest, by rw [polygonLinearRings_eq, hlr], ha, hb⟩
+
+/-- … and for rings that cross the antimeridian (un-wrapped longitudes) -/
+theorem src_exterior_ccw_holes_cw_antimeridian (raw o : List Pos) (holes hs : List (List Pos)) (kw : Kw)
+    (h1 : polygonInitDefault rt raw = .ok o)
+    (h2 : GeoJson.mapE (fun r => polygonInitDefault rt r) holes = .ok hs)
+    (hl : LonOK ((closeRingP raw).map Pos.pt)) (ht : turn ((closeRingP raw).map Pos.pt) = 0)
+    (hlh : ∀ r ∈ holes, LonOK ((closeRingP r).map Pos.pt))
+    (hth : ∀ r ∈ holes, turn ((closeRingP r).map Pos.pt) = 0) :
+    ∃ shell rest, polygonLinearRings rt ⟨o, hs.map fun h => ⟨fun _ => h⟩⟩ kw = .ok (shell :: rest) ∧
+      0 ≤ area2 (unwrap (shell.map Pos.pt)) ∧ ∀ r ∈ rest, area2 (unwrap (r.map Pos.pt)) ≤ 0 := by
+  obtain ⟨shell, rest, hlr, ha, hb⟩ :=
+    exterior_ccw_holes_cw_antimeridian raw holes _ kw.k (src_mkPolygon rt h1 h2) hl ht hlh hth
+  exact ⟨shell, rest, by rw [polygonLinearRings_eq, hlr], ha, hb⟩
+
+/-- **export → import identity of the geometry** — the `coordinates` the *source* computes for an object of any exporting
+    class, read by the importer of the matching type, give back the polygon form of the shape -/
+theorem src_geom_roundtrip (r : Recv) (kw : Kw) (geo : Obj) (hok : r.OK kw.k) (hg : GeomOK r.toGeom kw.k)
+    (hexp : r.geoInterface rt kw = .ok geo) :
+    ∃ g0 sg, geomEarly r.toGeom.kind geo = .ok g0 ∧ geomLate g0 = .ok sg ∧ r.toGeom.polyForm kw.k = .ok sg := by
+  rw [r.geoInterface_eq rt kw hok] at hexp
+  exact geom_roundtrip r.toGeom kw.k hg geo (toGeoInterface_ok hexp).2
+
+/-- **round trip of the Feature** — the document the *source's* `to_geojson` builds, imported with the importer of its
+    type, returns the polygon form of the shape, the same time bounds and user properties, and leaves the document as
+    it was -/
+theorem src_roundtrip (hrt : rt.Lawful) (r : Recv) (dt : Option TI) (props : Obj) (o : Opts) (doc : Obj)
+    (hok : r.OK o.k) (hg : GeomOK r.toGeom o.k) (hP : PropsOK props) (hdt : DtOK dt)
+    (hov : o.props.getD [] = []) (hx : ExtraOK o.extra)
+    (hexp : Src.GeoJson.toGeoJson rt (r.shape rt dt props) o.props (kwOf o) = .ok doc) :
+    ∃ sg, r.toGeom.polyForm o.k = .ok sg ∧
+      fromGeoJson rt r.toGeom.kind (.obj doc) = .ok (⟨sg, dt, props⟩, .obj doc) := by
+  have h := export_eq rt r dt props o hok
+  rw [hexp] at h
+  exact roundtrip rt hrt ⟨r.toGeom, dt, props⟩ o (.obj doc) hg hP hdt hov hx h.symm
+
+/-- **the time fields come back** — what the source's `_properties_json` writes for a time-bounded shape, the source's
+    `get_dt_from_geojson_props` reads back as the same interval, leaving exactly the user properties -/
+theorem src_time_fields_roundtrip (hrt : rt.Lawful) (s : ShapeS) (t : TI) (hdt : s.dt = some t)
+    (hle : t.start ≤ t.stop) (hP : PropsOK s.props) :
+    ∃ pj, propertiesJson rt s = .ok pj ∧
+      getDtFromGeojsonProps rt pj "datetime_start" "datetime_end" = .ok (some t, s.props) := by
+  refine ⟨_, propertiesJson_eq rt s (.point ⟨0, 0, none⟩), ?_⟩
+  rw [getDt_eq, hdt, properties_some _ t s.props hP, sanKvs_append, sanKvs_of_native rt s.props hP.1]
+  have := getDt_exported hrt s.props t.start t.stop hle hP.2.1 hP.2.2
+  simpa [sanKvs, sanitize] using this
+
+/-- … and a shape without time bounds exports no time field and reads back `None` -/
+theorem src_time_fields_absent (s : ShapeS) (hdt : s.dt = none) (hP : PropsOK s.props) :
+    ∃ pj, propertiesJson rt s = .ok pj ∧
+      getDtFromGeojsonProps rt pj "datetime_start" "datetime_end" = .ok (none, s.props) := by
+  refine ⟨_, propertiesJson_eq rt s (.point ⟨0, 0, none⟩), ?_⟩
+  rw [getDt_eq, hdt]
+  have hp : GeoJson.properties ⟨.point ⟨0, 0, none⟩, none, s.props⟩ = s.props := rfl
+  rw [hp, sanKvs_of_native rt s.props hP.1]
+  exact getDt_absent rt s.props hP.2.1 hP.2.2
+
+/-! ### non-vacuity: the hypotheses hold of concrete objects -/
+
+/-- a unit box with a triangular hole, as an exporting object -/
+def demoBox : Recv :=
+  .poly (.box ⟨⟨0, 1, none⟩, ⟨1, 0, none⟩, [⟨fun _ => [⟨1/4, 1/4, none⟩, ⟨3/4, 1/4, none⟩, ⟨1/2, 3/4, none⟩, ⟨1/4, 1/4, none⟩]⟩]⟩)
+
+example : demoBox.OK none := by
+  refine ⟨?_, ?_⟩ <;> simp only [PosOK] <;> norm_num
+
+/-- a full ring whose arcs have vertices and whose `bounds` is the model's -/
+def demoRing : RingS :=
+  ⟨fun _ => [⟨0, 1, none⟩, ⟨1, 0, none⟩, ⟨0, -1, none⟩], fun _ => [⟨0, 1/2, none⟩, ⟨1/2, 0, none⟩], 0, 360, .ok (-1, -1, 1, 1), []⟩
+
+example : (PolyRecv.ring demoRing).OK none := by
+  refine ⟨by simp [demoRing], fun _ => by simp [demoRing], ?_⟩
+  simp [demoRing, ringSrc, PolySrc.bounds, ringFull, bndOf]
+
+example : (Recv.mpoly [.polygon ⟨[⟨0, 0, none⟩, ⟨1, 0, none⟩, ⟨0, 1, none⟩, ⟨0, 0, none⟩], []⟩]
+    (Geom.mpoly [polygonSrc ⟨[⟨0, 0, none⟩, ⟨1, 0, none⟩, ⟨0, 1, none⟩, ⟨0, 0, none⟩], []⟩]).bounds).OK none := by
+  refine ⟨fun x hx => ?_, rfl⟩
+  simp at hx; subst hx; trivial
+
+/-- the source's constructor closes an open clockwise triangle and turns it counter-clockwise -/
+example (rt : Rt) : polygonInitDefault rt [⟨0, 0, none⟩, ⟨0, 1, none⟩, ⟨1, 0, none⟩] =
+    .ok [⟨0, 0, none⟩, ⟨1, 0, none⟩, ⟨0, 1, none⟩, ⟨0, 0, none⟩] := by
+  rw [polygonInitDefault_eq]; decide +kernel
 
 end GV.C14Src
